@@ -25,6 +25,9 @@ use tokio_util::codec::{FramedRead, FramedWrite};
 use uuid::Uuid;
 use vcore::*;
 
+/// The number that stands for an absent value (an event with an empty body) on a value downlink.
+const ABSENT: i64 = -7777;
+
 #[derive(Clone, Debug)]
 enum Act {
     Attach { sync: bool },
@@ -63,7 +66,8 @@ enum Frame {
 }
 
 enum ConsumerRx {
-    Value(FramedRead<ByteReader, ValueNotificationDecoder<i64>>),
+    /// the value is an `Option<i64>`: `None` is an event with an empty body (ABSENT stands for it in the model)
+    Value(FramedRead<ByteReader, ValueNotificationDecoder<Option<i64>>>),
     Map(FramedRead<ByteReader, MapNotificationDecoder<i64, i64>>),
 }
 
@@ -137,7 +141,7 @@ async fn run_case(map: bool, acts: &[Act], socket_buffer: usize, expect_stop: bo
                                 DownlinkNotification::Linked => Note::Linked,
                                 DownlinkNotification::Synced => Note::Synced,
                                 DownlinkNotification::Unlinked => Note::Unlinked,
-                                DownlinkNotification::Event { body } => Note::Event(body),
+                                DownlinkNotification::Event { body } => Note::Event(body.unwrap_or(ABSENT)),
                             })
                             .map_err(|e| format!("{:?}", e))
                         })
@@ -192,7 +196,7 @@ async fn run_case(map: bool, acts: &[Act], socket_buffer: usize, expect_stop: bo
             }
             Act::Remote(m) => {
                 let path = RelativeAddress::new("/node", "lane");
-                let body = |n: i64| if map { format!("@update(key:{}) {}", n.rem_euclid(3), n) } else { n.to_string() };
+                let body = |n: i64| if map { format!("@update(key:{}) {}", n.rem_euclid(3), n) } else if n == ABSENT { String::new() } else { n.to_string() };
                 let envelope: Notification<Vec<u8>, Vec<u8>> = match m {
                     RMsg::Linked => Notification::Linked,
                     RMsg::Synced => Notification::Synced,
@@ -294,10 +298,29 @@ async fn run_case(map: bool, acts: &[Act], socket_buffer: usize, expect_stop: bo
     // Whether an idle runtime stops is not demanded: no property states it, and the read half arms its idle timer
     // only when its loop comes round again (after the flush that finds the last consumer gone it waits for the
     // next message or consumer first), so a quiet lane keeps an abandoned downlink alive.
-    let _ = (expect_stop, finished);
+    let _ = expect_stop;
+    let mut joined = false;
+    if finished && problem.is_none() {
+        // The runtime may only be gone for a reason: the remote unlinked, or (on a paused clock) nobody was attached.
+        // A task that panicked, or stopped under the feet of an attached consumer, is a failure.
+        let unlinked = acts[..executed.min(acts.len())].iter().any(|a| matches!(a, Act::Remote(RMsg::Unlinked)));
+        let live = consumers.iter().filter(|k| k.rx.is_some()).count();
+        let joined_now = (&mut task).now_or_never();
+        joined = joined_now.is_some();
+        match joined_now {
+            Some(Err(e)) if e.is_panic() => problem = Some("the downlink runtime task panicked".to_string()),
+            _ => {
+                if !unlinked && live > 0 {
+                    problem = Some(format!("the downlink runtime stopped although {} consumers were attached and the remote had not unlinked", live));
+                }
+            }
+        }
+    }
     stop_tx.trigger();
     drop(req_tx);
-    let _ = tokio::time::timeout(Duration::from_secs(5), &mut task).await;
+    if !joined {
+        let _ = tokio::time::timeout(Duration::from_secs(5), &mut task).await;
+    }
     Outcome { seen: consumers.into_iter().map(|k| k.seen).collect(), frames, wevs, problem, executed }
 }
 
@@ -368,7 +391,9 @@ fn main() {
                 }
                 4 | 5 if linked && !unlinked => {
                     next_event += 1;
-                    acts.push(Act::Remote(RMsg::Event(next_event)));
+                    // on a value downlink one event in six carries the absent value (an empty body)
+                    let n = if !map && rng.below(6) == 0 { ABSENT } else { next_event };
+                    acts.push(Act::Remote(RMsg::Event(n)));
                 }
                 6 if linked && !unlinked => acts.push(Act::Remote(RMsg::Synced)),
                 7 | 8 if attached > dropped.len() => {
